@@ -348,10 +348,11 @@ def build_classes(spec):
     from metador_core.schema.decorators import add_const_fields, override
     _env()
 
-    def mk(name, base, fields, extra):
+    def mk(name, base, fields, extra, unann=(), nonfields=False):
         ns = {"__annotations__": {n: hint_py(ann, t) for n, (ann, t) in fields}, "__module__": __name__}
         if extra is not None:
             ns["Config"] = type("Config", (), {"extra": Extra(extra)})
+        apply_attrs(ns, unann, nonfields)
         return type(name, (base,), ns)
 
     P = mk("GenParent", MetadataSchema, spec["p_fields"], spec["p_extra"] if spec["p_extra"] != "allow" else None)
@@ -359,7 +360,8 @@ def build_classes(spec):
         P = add_const_fields({c: "pconst" for c in spec["p_consts"]}, override=True)(P)
     check_types(P)
     try:
-        C = mk("GenChild", P, spec["c_own"], spec["c_extra_explicit"])
+        C = mk("GenChild", P, spec["c_own"], spec["c_extra_explicit"], spec.get("c_unann", ()),
+               spec.get("c_nonfields", False))
         if spec["c_newconsts"]:
             C = add_const_fields({c: "cconst" for c in spec["c_newconsts"]}, override=True)(C)
         if spec["c_declared"]:
@@ -375,12 +377,28 @@ def _parses(cls, raw) -> Tuple[bool, Any]:
         return True, cls.parse_raw(raw)
     except Exception as e:  # noqa: BLE001
         cause = None
-        try:
-            errs = e.errors()
-            cause = ["extra" if errs[0]["type"] == "value_error.extra" else "field", str(errs[0]["loc"][-1] if errs[0]["type"] == "value_error.extra" else errs[0]["loc"][1] if len(errs[0]["loc"]) > 1 else errs[0]["loc"][0])]
+        try:                    # every complaint of the validator: [kind, field-or-key]; the first one leads
+            cause = []
+            for er in e.errors():
+                loc = [x for x in er["loc"] if x != "__root__"] or ["?"]
+                c = ["extra", str(loc[-1])] if er["type"] == "value_error.extra" else ["field", str(loc[0])]
+                if c not in cause:
+                    cause.append(c)
+            cause = cause or None
         except Exception:  # noqa: BLE001
-            pass
+            cause = None
         return False, cause
+
+
+def blamed(cause, declared) -> Any:
+    """first complaint of a rejecting ancestor that is not about a field named in @override (those are
+    exempt); None when every complaint is about a declared override"""
+    if not cause:
+        return ["unknown", "?"]
+    for c in cause:
+        if not (c[0] == "field" and c[1] in declared):
+            return c
+    return None
 
 
 def impl_class_case(spec) -> Dict[str, Any]:
@@ -422,6 +440,7 @@ def build_chain(spec, tag):
         ns = {"__annotations__": {n: hint_py(ann, t) for n, (ann, t) in L["own"]}, "__module__": __name__}
         if L["extra_explicit"] is not None:
             ns["Config"] = type("Config", (), {"extra": Extra(L["extra_explicit"])})
+        apply_attrs(ns, L.get("unann", ()), L.get("nonfields", False))
         if L["plugin"]:
             ns["Plugin"] = type("Plugin", (), {"name": f"vt.cn{tag}l{lv}", "version": (0, 1, 0)})
         C = type(f"Chain{lv}", (base,), ns)
@@ -706,6 +725,47 @@ def pick_override(t, rng):
     return rng.choice(FIELD_POOL)
 
 
+# new fields introduced WITHOUT annotation: `name = default`; pydantic infers the (plain) type from the default
+UNANN_DEFAULTS = [5, "dflt", True, [1]]
+
+
+def unann_desc(default):
+    if isinstance(default, bool):
+        return P_BOOL
+    if isinstance(default, int):
+        return P_INT
+    if isinstance(default, str):
+        return P_STR
+    return ("list", ANY)
+
+
+def unann_hint_sx(default):
+    """model hint of a defaulted field: a missing key is fine (the generator never sends null for it)"""
+    return hint_sx(False, opt(unann_desc(default)))
+
+
+def unann_value(default, rng):
+    if isinstance(default, bool):
+        return rng.choice([False, True, "zz"])
+    if isinstance(default, int):
+        return rng.choice([7, 5, "zz"])
+    if isinstance(default, str):
+        return rng.choice(["s", "t", [1]])
+    return rng.choice([[2, "x"], [], "zz"])
+
+
+def apply_attrs(ns, unann, nonfields):
+    """un-annotated defaulted attributes (fields) and, as negative cases, a private attribute and a ClassVar"""
+    import copy
+    import typing as T
+    for n, dv in unann:
+        ns[n] = copy.deepcopy(dv)
+    if nonfields:
+        ns["_priv"] = 5
+        ns["__annotations__"]["cv"] = T.ClassVar[int]
+        ns["cv"] = 3
+
+
 def good_value(d, rng):
     """a value a field of type d plausibly accepts"""
     k = d[0]
@@ -735,14 +795,21 @@ def gen_class_case(rng, idx) -> Dict[str, Any]:
     p_extra = rng.choice(["allow", "allow", "allow", "ignore", "forbid", "forbid"])
     p_consts = ["pc"] if rng.random() < 0.3 else []
     c_own = []
+    no_override = rng.random() < 0.2
     for n, (ann, t) in p_fields:
-        if rng.random() < 0.6:
+        if not no_override and rng.random() < 0.6:
             ct = pick_override(t, rng)
             c_own.append((n, (ann if rng.random() < 0.85 else not ann, ct)))
     if rng.random() < (0.15 if p_extra == "forbid" else 0.45):
         c_own.append(("n0", (False, rng.choice(FIELD_POOL))))
     if p_consts and rng.random() < 0.08:
         c_own.append(("pc", (False, S_STR)))
+    c_unann = []
+    if rng.random() < 0.3:
+        c_unann.append(("u0", rng.choice(UNANN_DEFAULTS)))
+        if rng.random() < 0.25:
+            c_unann.append(("u1", rng.choice(UNANN_DEFAULTS)))
+    c_nonfields = rng.random() < 0.3
     declared = [n for n, _ in c_own if n.startswith("f") and rng.random() < 0.25]
     if rng.random() < 0.04:
         declared.append("zz")
@@ -771,6 +838,9 @@ def gen_class_case(rng, idx) -> Dict[str, Any]:
             v = rng.choice(OBJ_VALUES)
             if v != "<absent>":
                 o[n] = v
+        for n, dv in c_unann:
+            if rng.random() < 0.3:
+                o[n] = unann_value(dv, rng)
         if rng.random() < 0.25:
             o["zz"] = rng.choice([1, None, "x"])
         if newconsts and rng.random() < 0.3:
@@ -780,7 +850,7 @@ def gen_class_case(rng, idx) -> Dict[str, Any]:
         objects.append(o)
     return {"idx": idx, "p_fields": p_fields, "p_extra": p_extra, "p_consts": p_consts, "c_own": c_own,
             "c_declared": declared, "c_newconsts": newconsts, "c_extra_explicit": explicit, "c_extra": c_extra,
-            "objects": objects}
+            "c_unann": c_unann, "c_nonfields": c_nonfields, "objects": objects}
 
 
 def gen_chain_case(rng, idx) -> Dict[str, Any]:
@@ -793,6 +863,7 @@ def gen_chain_case(rng, idx) -> Dict[str, Any]:
     levels = [{"plugin": rng.random() < 0.75, "own": root_fields, "extra": root_extra,
                "extra_explicit": None if root_extra == "allow" else root_extra, "declared": [], "newconsts": []}]
     cur_t = dict(root_fields)
+    cur_u: Dict[str, Any] = {}
     cur_extra = root_extra
     for lv in range(1, depth):
         leaf = lv == depth - 1
@@ -810,9 +881,12 @@ def gen_chain_case(rng, idx) -> Dict[str, Any]:
         newconsts = [f"k{lv}"] if rng.random() < (0.05 if cur_extra == "forbid" else 0.12) else []
         explicit = None if rng.random() < 0.85 else rng.choice(["allow", "ignore", "forbid"])
         extra = explicit if explicit is not None else cur_extra
+        unann = [(f"u{lv}", rng.choice(UNANN_DEFAULTS))] if rng.random() < 0.15 else []
         levels.append({"plugin": True if leaf else rng.random() < 0.35, "own": own, "extra": extra,
-                       "extra_explicit": explicit, "declared": declared, "newconsts": newconsts})
+                       "extra_explicit": explicit, "declared": declared, "newconsts": newconsts,
+                       "unann": unann, "nonfields": rng.random() < 0.2})
         cur_t.update(own)
+        cur_u.update(unann)
         cur_extra = extra
     objects = []
     for _ in range(8):
@@ -827,6 +901,9 @@ def gen_chain_case(rng, idx) -> Dict[str, Any]:
                 v = rng.choice(OBJ_VALUES)
                 if v != "<absent>":
                     o[n] = v
+        for n, dv in cur_u.items():
+            if rng.random() < 0.3:
+                o[n] = unann_value(dv, rng)
         if rng.random() < 0.15:
             o["zz"] = rng.choice([1, "x"])
         objects.append(o)
@@ -836,7 +913,8 @@ def gen_chain_case(rng, idx) -> Dict[str, Any]:
 def chain_case_sx(spec, pt) -> Any:
     root = spec["levels"][0]
     root_sx = [["100"], root["extra"], [[n, hint_sx(ann, t)] for n, (ann, t) in root["own"]], []]
-    kids = [[str(100 + lv), L["extra"], [[n, hint_sx(ann, t)] for n, (ann, t) in L["own"]],
+    kids = [[str(100 + lv), L["extra"],
+             [[n, hint_sx(ann, t)] for n, (ann, t) in L["own"]] + [[n, unann_hint_sx(dv)] for n, dv in L.get("unann", ())],
              list(L["declared"]), list(L["newconsts"])] for lv, L in enumerate(spec["levels"]) if lv > 0]
     return ["chain", pt, root_sx, kids, [j_sx(o) for o in spec["objects"]]]
 
@@ -856,9 +934,11 @@ def _chain_from_json(rep):
 def chain_fails(spec) -> bool:
     """code-only oracle on one chain case: accepted, nothing declared, an ancestor rejects a leaf dump"""
     st, got = w_chain(spec)
-    if st != "ok" or (got["a"] != "ok" and got["b"] != "ok") or any(L["declared"] for L in spec["levels"]):
+    if st != "ok" or (got["a"] != "ok" and got["b"] != "ok"):
         return False
-    return any(leaf_ok and any(not ok for ok, _c in dumps) for leaf_ok, _d, dumps in got["rows"] if dumps is not None)
+    declared = [n for L in spec["levels"] for n in L["declared"]]
+    return any(leaf_ok and any((not ok) and blamed(c, declared) is not None for ok, c in dumps)
+               for leaf_ok, _d, dumps in got["rows"] if dumps is not None)
 
 
 def shrink_chain_case(spec, obj):
@@ -877,10 +957,10 @@ def shrink_chain_case(spec, obj):
         if fails(dict(cur, objects=[o2])):
             o, cur = o2, dict(cur, objects=[o2])
     for lv in range(len(cur["levels"])):    # own fields / constants of every level
-        for key in ("own", "newconsts"):
-            for it in list(cur["levels"][lv][key]):
+        for key in ("own", "newconsts", "unann"):
+            for it in list(cur["levels"][lv].get(key, [])):
                 lvls = [dict(L) for L in cur["levels"]]
-                lvls[lv][key] = [x for x in lvls[lv][key] if x != it]
+                lvls[lv][key] = [x for x in lvls[lv].get(key, []) if x != it]
                 trial = dict(cur, levels=lvls)
                 if fails(trial):
                     cur = trial
@@ -899,7 +979,9 @@ CONST_HINT_SX = ["F", ["union", [["any"], ["none"]]]]
 def class_case_sx(spec, pt) -> Any:
     p_hints = [[n, hint_sx(ann, t)] for n, (ann, t) in spec["p_fields"]] + [[c, CONST_HINT_SX] for c in spec["p_consts"]]
     parent = [["100"], spec["p_extra"], p_hints, list(spec["p_consts"])]
-    child = ["101", spec["c_extra"], [[n, hint_sx(ann, t)] for n, (ann, t) in spec["c_own"]],
+    child = ["101", spec["c_extra"],
+             [[n, hint_sx(ann, t)] for n, (ann, t) in spec["c_own"]]
+             + [[n, unann_hint_sx(dv)] for n, dv in spec.get("c_unann", ())],
              list(spec["c_declared"]), list(spec["c_newconsts"])]
     return ["chk", pt, parent, child, [j_sx(o) for o in spec["objects"]]]
 
@@ -1113,10 +1195,11 @@ def run(ctx: vlib.Ctx):
                 disagreements.append({"kind": "child-accepts", "spec": _jsonable(spec), "object": obj,
                                       "impl": c_ok, "model": mc})
             # oracle B (code alone)
-            if real_ok and c_ok and p_dump is False and not spec["c_declared"]:
+            lead = blamed(cause, spec["c_declared"]) if (real_ok and c_ok and p_dump is False) else None
+            if lead is not None:
                 if spec_in_grammar(spec):
                     # cause as the parent's own validation error names it: an unexpected key, or a field value
-                    kind = cause[0] if cause else "unknown"
+                    kind = lead[0]
                     sig = {"kind": "class-oracle", "cause": kind}
                     key = json.dumps(sig, sort_keys=True)
                     if kind == "field" and oracle_reported:
@@ -1125,9 +1208,10 @@ def run(ctx: vlib.Ctx):
                         cls_reported.add(key)
                         small_spec = shrink_class_case(spec, obj)
                         ctx.violation(
-                            "a child schema passes class creation and check_types without declared overrides, accepts "
-                            f"{json.dumps(small_spec['objects'][0])}, and its parent rejects the serialised child instance "
-                            f"(parent extra={spec['p_extra']}, child constants={spec['c_newconsts']})",
+                            f"a child schema passes class creation and check_types (declared overrides: {small_spec['c_declared']}), "
+                            f"accepts {json.dumps(small_spec['objects'][0])}, and its parent rejects the serialised child instance: "
+                            f"{lead} (parent extra={spec['p_extra']}, child constants={small_spec['c_newconsts']}, "
+                            f"un-annotated new fields={small_spec.get('c_unann', [])})",
                             {"kind": "class-oracle", "spec": _jsonable(small_spec)}, sig_obj=sig)
                 elif len(gaps) < 10:
                     gaps.append({"class_case": _jsonable(spec), "object": obj})
@@ -1162,9 +1246,11 @@ def run(ctx: vlib.Ctx):
                 disagreements.append({"kind": "chain-accepts", "spec": _jsonable(spec), "object": obj,
                                       "impl": direct, "model": manc})
             # oracle D (code alone): the leaf was let through, so every ancestor reads its instances
-            if not (leaf_ok and dumps is not None) or any(L["declared"] for L in spec["levels"]):
+            if not (leaf_ok and dumps is not None):
                 continue
-            bad = [(lv, cause) for lv, (ok, cause) in enumerate(dumps) if not ok]
+            decl = [n for L in spec["levels"] for n in L["declared"]]
+            bad = [(lv, blamed(cause, decl)) for lv, (ok, cause) in enumerate(dumps)
+                   if not ok and blamed(cause, decl) is not None]
             if not bad:
                 continue
             if chain_in_grammar(spec):
@@ -1180,13 +1266,15 @@ def run(ctx: vlib.Ctx):
                 small = shrink_chain_case(spec, obj)
                 st2, got2 = w_chain(dict(small, salt=small.get("salt", 0) + 1))
                 if st2 == "ok" and got2["rows"] and got2["rows"][0][2]:
-                    bad2 = [(i, c) for i, (ok, c) in enumerate(got2["rows"][0][2]) if not ok]
+                    decl2 = [n for L in small["levels"] for n in L["declared"]]
+                    bad2 = [(i, blamed(c, decl2)) for i, (ok, c) in enumerate(got2["rows"][0][2])
+                            if not ok and blamed(c, decl2) is not None]
                     if bad2:
                         lv, cause = bad2[0]
                 plug = ["plugin" if L["plugin"] else "no plugin" for L in small["levels"]]
                 ctx.violation(
-                    f"inheritance chain {plug} passes check_types(leaf)={got['a']} / registration={got['b']} without "
-                    f"declared overrides, the leaf accepts {json.dumps(small['objects'][0])}, and the ancestor at level "
+                    f"inheritance chain {plug} passes check_types(leaf)={got['a']} / registration={got['b']} (declared "
+                    f"overrides: {[n for L in small['levels'] for n in L['declared']]}), the leaf accepts {json.dumps(small['objects'][0])}, and the ancestor at level "
                     f"{lv} rejects the serialised leaf instance ({cause})",
                     {"kind": "chain-oracle", "spec": _jsonable(small)}, sig_obj=sig)
             elif len(gaps) < 12:
@@ -1235,6 +1323,12 @@ def run(ctx: vlib.Ctx):
         "chain_objects": n_ch_rows, "chain_objects_leaf_accepted": n_ch_leaf_acc,
         "chain_lengths": _hist(len(c["levels"]) for c in chains),
         "chain_plugin_patterns": _hist("".join("P" if L["plugin"] else "-" for L in c["levels"]) for c in chains),
+        "classes_with_unannotated_new_field": sum(1 for sp in specs if sp["c_unann"]),
+        "classes_with_unannotated_new_field_ok": sum(1 for sp, (st, got) in zip(specs, icls)
+                                                     if sp["c_unann"] and st == "ok" and got["status"] == "ok"),
+        "classes_with_unannotated_new_field_under_forbid": sum(1 for sp in specs if sp["c_unann"] and sp["p_extra"] == "forbid"),
+        "classes_with_private_and_classvar_attrs": sum(1 for sp in specs if sp["c_nonfields"]),
+        "chains_with_unannotated_new_field": sum(1 for c in chains if any(L.get("unann") for L in c["levels"])),
         "classes": ncls, "classes_ok": n_ok, "classes_refused": n_ref, "class_objects": n_rows,
         "class_objects_child_accepted": n_child_acc,
         "installed": {r["schema"]: {"built": r["built"], "distinct": r["distinct"], "invalid": r["invalid"],
@@ -1289,9 +1383,10 @@ def shrink_class_case(spec, obj):
     """Drop fields / decorations / object keys while the code-only oracle still fails."""
     def fails(s) -> bool:
         st, got = w_class(s)
-        if st != "ok" or got["status"] != "ok" or s["c_declared"]:
+        if st != "ok" or got["status"] != "ok":
             return False
-        return any(c_ok and p_dump is False for c_ok, _p, p_dump, _c in got["rows"])
+        return any(c_ok and p_dump is False and blamed(c, s["c_declared"]) is not None
+                   for c_ok, _p, p_dump, c in got["rows"])
 
     cur = dict(spec)
     cur["objects"] = [obj]
@@ -1308,16 +1403,18 @@ def shrink_class_case(spec, obj):
         return cur
 
     cur = shrink_object(cur)
-    for key in ("c_own", "p_fields", "p_consts", "c_newconsts"):
-        items = list(cur[key])
+    for key in ("c_own", "p_fields", "p_consts", "c_newconsts", "c_unann"):
+        items = list(cur.get(key, []))
         for it in list(items):
             trial = dict(cur)
             trial[key] = [x for x in items if x != it]
             if key == "p_fields":
                 trial["c_own"] = [x for x in cur["c_own"] if x[0] != it[0]]
+            if key in ("p_fields", "c_own"):
+                trial["c_declared"] = [d for d in cur["c_declared"] if d != it[0]]
             if fails(trial):
                 cur = trial
-                items = list(cur[key])
+                items = list(cur.get(key, []))
     return shrink_object(cur)
 
 
@@ -1349,8 +1446,9 @@ def replay(rep) -> int:
         spec = _spec_from_json(rep["spec"])
         st, got = w_class(spec)
         print(st, got)
-        bad = st == "ok" and got["status"] == "ok" and not spec["c_declared"] and any(
-            c_ok and p_dump is False for c_ok, _p, p_dump, _c in got["rows"])
+        bad = st == "ok" and got["status"] == "ok" and any(
+            c_ok and p_dump is False and blamed(c, spec["c_declared"]) is not None
+            for c_ok, _p, p_dump, c in got["rows"])
         print("still failing" if bad else "no longer failing")
         return 1 if bad else 0
     if kind == "chain-oracle":
